@@ -106,6 +106,9 @@ func aggregateElemType(t types.Type, indices []uint64) types.Type {
 	case *types.ArrayType:
 		return aggregateElemType(t.ElemType, indices[1:])
 	case *types.StructType:
+		if indices[0] >= uint64(len(t.Fields)) {
+			panic(fmt.Errorf("invalid index %d into struct type %v; the struct has %d fields", indices[0], t, len(t.Fields)))
+		}
 		return aggregateElemType(t.Fields[indices[0]], indices[1:])
 	default:
 		panic(fmt.Errorf("support for aggregate type %T not yet implemented", t))
